@@ -162,8 +162,22 @@ def main(tier, write_baseline=False):
             continue
         seen.add(o["name"])
         cand = next(iter(fails.values()), None)
+        fi = {"docstring": cand[0], "what": cand[1]} if cand else None
+        if "section-line-recognised" in o["name"]:
+            # replay the contract's claim on the real scanner: a header, then a line that starts a section
+            import contracts.C15 as C15c
+            from cdd.shared.docstring_utils import _get_token_start_idx
+
+            fi = None
+            head = "Header line.\n\n"
+            for tok in C15c.SECTION_STARTS:
+                doc = head + tok + " x\n  more\n"
+                got = _get_token_start_idx(doc)
+                if got != len(head):
+                    fi = {"docstring": doc, "what": "_get_token_start_idx returned %d, the section line %r starts at %d" % (got, tok + " x", len(head)), "function": "_get_token_start_idx"}
+                    break
         run.violation(o["name"], "obligation refuted by %s on path %s" % (o["backend"], " ".join(o["trace"])),
-                      failing_input=({"docstring": cand[0], "what": cand[1]} if cand else None), solver_output={"model": o["model"], "smt2": (o["smt2"] or "")[:5000]})
+                      failing_input=fi, solver_output={"model": o["model"], "smt2": (o["smt2"] or "")[:5000]})
     for (kind, has_raises), (doc, what) in fails.items():
         run.violation("C15/bounded/split/%s" % kind, what, key={"kind": kind, "has_raises_token": str(has_raises)}, failing_input={"docstring": doc})
     for (kind, a, b, ind, hi), (case, what) in cfails.items():
@@ -177,6 +191,12 @@ def replay(path):
     d = json.load(open(path))
     inp = d.get("failing_input") or {}
     print("replaying %s: obligation %s" % (path, d["failed_obligation"]))
+    if inp.get("function") == "_get_token_start_idx":
+        from cdd.shared.docstring_utils import _get_token_start_idx
+
+        got = _get_token_start_idx(inp["docstring"])
+        print("%r -> %d (%s)" % (inp["docstring"], got, inp["what"]))
+        return 1 if got != len("Header line.\n\n") else 0
     if "docstring" in inp:
         r = split_check(inp["docstring"])
         print("%r -> %s" % (inp["docstring"][:200], r))
